@@ -36,6 +36,7 @@ func checkC03(c *Ctx) {
 	c.willFlagSiblings()
 	c.lpHelpersAcceptSpecLengths()
 	c.encodersWriteEveryByte()
+	c.headerByteRefusals()
 }
 
 // decodeLoopConservation: B3.
@@ -1727,4 +1728,3 @@ func tableInit(g *ssa.Global, idx int64, field int) (constant.Value, bool) {
 	}
 	return nil, false
 }
-
